@@ -17,7 +17,7 @@ import (
 // reports; EncryptManyWithNonces / DecryptMany / OpenMany are the element-wise maps.
 func TestPaillierBatch(t *testing.T) {
 	const test = "PaillierBatch"
-	vlib.Check(t, 200, func(t *rapid.T) {
+	vlib.Check(t, 160, func(t *rapid.T) {
 		id := drawKeyID(t, "key")
 		key := getKey(t, id)
 		ref := key.Ref
